@@ -226,6 +226,8 @@ def run(chk: common.Check):
         return "\n".join((l[:21] + "L" + l[22:]) if l[:6] == "HETATM" else l for l in t.splitlines()) + "\n"
     pairs.append(("4DFR complex A (ligand chain L)", lig_L(partA), {}, "4DFR complex B (ligand chain L)", lig_L(partB), {}))
 
+    # a far part whose own iterative solution needs several sweeps, next to the sweep-limit cluster
+    pairs.append(("4DFR complex A", partA, {"A": "A"}, "carboxylate triangle", tri, {"Q": "Q"}))
     gaps = [25.5, 60.0, 1200.0] + ([26.0, 300.0, 5000.0] if chk.thorough else [])
     for na, ta, ma, nb, tb, mb in pairs:
         la = "\n".join(relabel(ta, ma, 0)) + "\n"
@@ -240,7 +242,7 @@ def run(chk: common.Check):
         except Exception as ex:   # noqa: BLE001
             found.append(("crash-alone", f"{na}: {type(ex).__name__}: {ex}", {"case": na}))
             continue
-        for gap in (gaps if "4DFR" not in na else gaps[1:2]):
+        for gap in (gaps if "4DFR" not in na else gaps[1:2]):   # one gap for the (slower) 4DFR pairs
             axis = rng.randrange(3)
             lb, sh = separated(la, lb0, gap, axis)
             try:
@@ -257,7 +259,7 @@ def run(chk: common.Check):
                     found.append((f"crash-combined:{type(ex).__name__}", f"{what}: {type(ex).__name__}: {ex} (each part alone is processed)", rep))
                     continue
                 chk.count(1, key=("combined", na, nb, gap, order))
-                if "4DFR" in na:
+                if "4DFR" in na and "4DFR" in nb:
                     # parts share the ligand chain id: compare protein chains by chain id and ligands by residue membership through order
                     da = [d for d in compare_part({c: [g for g in gs if g["label"][-1] == "A"] for c, gs in ra.items()}, rc, {"A"})]
                     db = [d for d in compare_part({c: [g for g in gs if g["label"][-1] == "B"] for c, gs in rb.items()}, rc, {"B"})]
@@ -266,7 +268,7 @@ def run(chk: common.Check):
                     db = compare_part(rb, rc, chains_b)
                 for part, d in ((na, da), (nb, db)):
                     if d:
-                        found.append(("far-part-changes-results" + (":shared-ligand-chain" if "4DFR" in na else (":sweep-limit-cluster" if "triangle" in nb else "")),
+                        found.append(("far-part-changes-results" + (":shared-ligand-chain" if ("4DFR" in na and "4DFR" in nb) else (":sweep-limit-cluster" if "triangle" in nb else "")),
                                       f"{what}: {len(d)} results of {part} differ from processing it alone, e.g. {d[0][1:]}",
                                       dict(rep, differences=[list(map(str, x)) for x in d[:6]])))
                         break
